@@ -3,9 +3,10 @@ import UrcuVerif.Src.FutexRefine
 # call_rcu helper futex and completion futex (`src/urcu-call-rcu-impl.h`)
 
 * `call_rcu_wait(crdp)`, `call_rcu_completion_wait(completion)` ⊑ generic waiter on `&crdp->futex` / `&completion->futex`
-  (`WaitPost`), hence ⊑ the helper of `CallRcu/Wake.lean` from pc `waitLd` (`Cr.sim`);
+  (`WaitPost`), hence ⊑ the helper of `CallRcu/Wake.lean` from pc `waitLd` (`Cr.sim`) resp. caller `t` of
+  `CallRcu/Barrier.lean` from pc `waitLd b` (`Br.sim`);
 * `call_rcu_wake_up(crdp)`, `call_rcu_completion_wake_up(completion)` ⊑ generic waker (`WakePost`), hence ⊑ waker `i` of
-  `CallRcu/Wake.lean` from pc `kmb` (`Cr.simK`); `wake_call_rcu_thread(crdp)` = load of `crdp->flags` (silent: L2 folds it
+  `CallRcu/Wake.lean` from pc `kmb` (`Cr.simK`) resp. the marker callback of `CallRcu/Barrier.lean` from `ldFut` (`Br.simK`); `wake_call_rcu_thread(crdp)` = load of `crdp->flags` (silent: L2 folds it
   into `kEnq`; L2 models a futex-woken helper, `URCU_CALL_RCU_RT` clear) + `call_rcu_wake_up`.
 
 Side conditions of the wakers (needed for `exec` not to fail): FUTEX_WAKE returns an integer `≥ 0` (the number of
